@@ -224,6 +224,37 @@ def rand_leaf_item(rng, esyms):
     return alts
 
 
+def good_for(rng, tab, alts, ssyms):
+    """a submitted item that earns something against the item specification, if the table has one"""
+    syms = [a['sym'] for a in alts]
+    cands = [t['s'] for t in tab if t['e'] in syms]
+    return rng.choice(cands) if cands else rng.choice(ssyms)
+
+
+def perturb(rng, items, ssyms, ordered, pblank, nmax):
+    """edits of a good submission: reorder, drop, replace, add surplus, blank out"""
+    items = list(items)
+    if not ordered or rng.random() < .3:
+        rng.shuffle(items)
+    r = rng.random()
+    if r < .25 and len(items) > 1:
+        del items[rng.randrange(len(items))]
+    elif r < .5:
+        for _ in range(rng.randint(1, 2)):
+            items.insert(rng.randint(0, len(items)), rng.choice(ssyms))
+    if rng.random() < .4 and items:
+        items[rng.randrange(len(items))] = rng.choice(ssyms)
+    items = [rng.choice(BLANKS) if rng.random() < pblank else it for it in items]
+    return items[:nmax]
+
+
+def join_syms(items, delim):
+    txt = []
+    for k, it in enumerate(items):
+        txt += (delim if k else []) + it
+    return txt
+
+
 def rand_flat(rng, i, big):
     delim = rng.choice(DELIMS)
     esyms = [['E%d' % k] for k in range(1, 9)]
@@ -244,44 +275,40 @@ def rand_flat(rng, i, big):
                         'credit': q(rng.choice([1, 1, 1, Fraction(1, 2), Fraction(3, 4), Fraction(1, 3), 0])),
                         'hasMsg': rng.random() < .7})
         atext = []
+        target = rng.choice(ans)['items']
     else:
         items = rng.sample(esyms, nE)
         if rng.random() < .3:
             items[0] = ['SP'] + items[0]
         ans = []
-        atext = []
-        for k, it in enumerate(items):
-            atext += (delim if k else []) + it
+        atext = join_syms(items, delim)
         esyms = esyms + [['SP'] + e for e in esyms]
+        target = [[{'sym': it, 'credit': [1, 1]}] for it in items]
     tab = rand_table(rng, esyms, ssyms_tab)
+    if rng.random() < .5:                          # make sure full credit is reachable for the target list
+        for it in target:
+            s0 = rng.choice(ssyms)
+            tab = [t for t in tab if not (t['e'] == it[0]['sym'] and t['s'] == s0)]
+            tab.append({'e': it[0]['sym'], 's': s0, 'w': q(1)})
     P = {'g': g, 'form': form, 'ans': ans, 'atext': atext, 'tab': tab}
-    # submission
-    r = rng.random()
-    if g['lengthErr'] and r < .7:
-        nS = nE
-    elif big:
-        nS = rng.randint(5, 7) if r < .8 else rng.randint(1, 4)
+    # submission: a good answer to the target list, perturbed
+    base = [good_for(rng, tab, it, ssyms) for it in target]
+    if rng.random() < .3:
+        items = base if (g['ordered'] or rng.random() < .5) else rng.sample(base, len(base))
     else:
-        nS = rng.randint(1, 5)
-    pblank = rng.choice([0, 0, .1, .3])
-    items = [rng.choice(BLANKS) if rng.random() < pblank else rng.choice(ssyms) for _ in range(nS)]
-    if rng.random() < .5:                      # bias towards good matches: take items that earn something
-        good = [t['s'] for t in tab]
-        if good:
-            items = [rng.choice(good) if rng.random() < .7 else it for it in items]
-    txt = []
-    for k, it in enumerate(items):
-        txt += (delim if k else []) + it
-    return {'id': i, 'P': P, 'text': txt, 'kind': 'big' if big else 'flat'}
+        items = perturb(rng, base, ssyms, g['ordered'], rng.choice([0, 0, 0, .1, .3]), 7 if big else 5)
+        if g['lengthErr'] and rng.random() < .6:
+            items = (items + base)[:nE]
+    if not items:
+        items = [rng.choice(ssyms)]
+    return {'id': i, 'P': P, 'text': join_syms(items, delim), 'kind': 'big' if big else 'flat'}
 
 
 def rand_nested(rng, i):
     outer_d, inner_d = rng.choice([(['SEMI'], ['COMMA']), (['BAR', 'BAR'], ['COMMA']), (['SEMI'], ['BAR']),
                                    (['COMMA'], ['COMMA', 'SP'])])
-    if outer_d == ['COMMA']:
-        # the inner delimiter ', ' contains the outer one: every ',' already splits the outer list, which is what
-        # str.split does too; kept because nothing forbids it
-        pass
+    # (in the last pair the inner delimiter ', ' contains the outer one: every ',' already splits the outer list,
+    #  which is what str.split does too; kept because nothing forbids it)
     esyms = [['E%d' % k] for k in range(1, 7)]
     ssyms = [['s%d' % k] for k in range(1, 6)]
     me = rng.random() < .5
@@ -305,30 +332,43 @@ def rand_nested(rng, i):
             ans.append({'items': items, 'credit': q(rng.choice([1, 1, Fraction(1, 2), Fraction(2, 3)])),
                         'hasMsg': rng.random() < .7})
         atext = []
+        target = [rng.choice(alts)['items'] for alts in rng.choice(ans)['items']]
     else:
-        ans, atext = [], []
+        ans = []
+        target = []
+        parts = []
         for k in range(nE):
-            if k:
-                atext += outer_d
             inner_items = rng.sample(esyms, rng.randint(1, 3))
-            for m, it in enumerate(inner_items):
-                atext += (inner_d if m else []) + it
+            parts.append(join_syms(inner_items, inner_d))
+            target.append([[{'sym': it, 'credit': [1, 1]}] for it in inner_items])
+        atext = join_syms(parts, outer_d)
     tab = rand_table(rng, esyms, tabs)
+    if rng.random() < .6:
+        for inner_items in target:
+            for it in inner_items:
+                s0 = rng.choice(ssyms)
+                tab = [t for t in tab if not (t['e'] == it[0]['sym'] and t['s'] == s0)]
+                tab.append({'e': it[0]['sym'], 's': s0, 'w': q(rng.choice([1, 1, Fraction(1, 2)]))})
     P = {'g': g, 'form': form, 'ans': ans, 'atext': atext, 'tab': tab}
-    nS = nE if (g['lengthErr'] and rng.random() < .7) else rng.randint(1, 4)
-    good = [t['s'] for t in tab] or ssyms
-    txt = []
-    pblank = rng.choice([0, 0, .08, .2])
-    for k in range(nS):
-        if k:
-            txt += outer_d
-        if rng.random() < pblank / 2:
-            txt += rng.choice(BLANKS)
-            continue
-        for m in range(rng.randint(1, 3)):
-            it = rng.choice(BLANKS) if rng.random() < pblank else rng.choice(good if rng.random() < .7 else ssyms)
-            txt += (inner_d if m else []) + it
-    return {'id': i, 'P': P, 'text': txt, 'kind': 'nested'}
+    pblank = rng.choice([0, 0, 0, .08, .2])
+    outer_items = []
+    for inner_items in target:
+        base = [good_for(rng, tab, it, ssyms) for it in inner_items]
+        if rng.random() < .5:
+            base = perturb(rng, base, ssyms, inner['ordered'], pblank, 3) or [rng.choice(ssyms)]
+        outer_items.append(join_syms(base, inner_d))
+    if rng.random() < .6:
+        if not g['ordered'] or rng.random() < .3:
+            rng.shuffle(outer_items)
+        r = rng.random()
+        if r < .2 and len(outer_items) > 1:
+            del outer_items[rng.randrange(len(outer_items))]
+        elif r < .45:
+            extra = join_syms([rng.choice(ssyms + ([[]] if rng.random() < .3 else [])) for _ in range(rng.randint(1, 2))], inner_d)
+            outer_items.insert(rng.randint(0, len(outer_items)), extra)
+        if rng.random() < pblank:
+            outer_items[rng.randrange(len(outer_items))] = rng.choice(BLANKS)
+    return {'id': i, 'P': P, 'text': join_syms(outer_items, outer_d), 'kind': 'nested'}
 
 
 # ------------------------------------------------------------------ certificates (untrusted producer)
